@@ -2,7 +2,7 @@
 Proof: NV/Props/Properties_C12.v (CRC burst theorem, refusal of bursts/bit flips/truncations/bad magic+version, all-or-nothing,
 section completeness of every loaded file, the extension theorem pair keyed by the generated flag) over CRC parameters regenerated from nvm_format.c.
 Correspondence: probes/nvm_probe.c (ASan+UBSan+leak check, real nvm_deserialize / nvm_crc32) vs the extracted model on the
-same files: compiler-produced and generated .nvm files, every single-bit flip, every truncation, bursts in both bit
+same files: compiler-produced and generated .nvm files, loading-path histories (tools/props/c12_paths.py), every single-bit flip, every truncation, bursts in both bit
 numberings, random tails, CRC-steered tails, bad magic/version/section count, crafted valid-checksum files whose table sections are not whole entries; plus `nano_vm damaged.nvm` end to end.
 
 Scope note (reported in the evidence, not a violation of the property as stated): the checksum covers the bytes AFTER the
@@ -10,6 +10,7 @@ Scope note (reported in the evidence, not a violation of the property as stated)
 are accepted by the loader; the property speaks about damage "after its header"."""
 import os, json, struct, zlib
 import vlib, nvmlib
+import c12_paths
 
 K_EXT = 'c12:load:extension:crc-steered-tail'
 K_PARTIAL = 'c12:load:lenient-section:strings-entry-overrun'
@@ -142,7 +143,7 @@ def capped(ck, cat, key, what, replay):
 
 def run(ck):
     b = ck.build('plain')
-    ck.gen(['gen_nvmconsts', 'gen_runnerflags'])
+    ck.gen(['gen_nvmconsts', 'gen_runnerflags', 'gen_loadpaths'])
     ck.prove()
     nvmlib.coqchk(ck)
     ref = ck.nvref('c12')
@@ -344,6 +345,10 @@ def run(ck):
             capped(ck, 'nano_vm', 'c12:nano_vm:%s:%s' % (name, what), 'nano_vm did not refuse a damaged file (%s)' % what,
                     dict(engine='nano_vm', input_hex=g.hex(), file=name, fault=what, exit=rc, stdout=o[:500], stderr=e[:500]))
 
+    # ---- every loading path, histories through one process (nano_vmd, nano_vm --daemon, nano_cop, wrapper executable)
+    pf = [(n, f, os.path.join(nvmlib.scratch('src'), n + '.nano')) for n, f, _ in files if n in ('strings', 'ret42fn', 'loop')]
+    dist['loading_paths'] = c12_paths.run(ck, b, pf, lambda cat, key, what, rep: capped(ck, cat, key, what, rep))
+
     # ---- open known findings not already re-established above are replayed here (keys must match exactly)
     seen = {f['key'] for f in ck.failures}
     for k in ck.known:
@@ -385,8 +390,12 @@ def run(ck):
 
 
 def replay(ck, d):
-    b = ck.build('plain'); ck.gen(['gen_nvmconsts', 'gen_runnerflags'])
+    b = ck.build('plain'); ck.gen(['gen_nvmconsts', 'gen_runnerflags', 'gen_loadpaths'])
     ref = ck.nvref('c12'); probe = ck.probe('nvm_probe.c', 'asan')
+    if d.get('kind_of_replay') == 'history':
+        bad = c12_paths.replay_history(ck, b, d)
+        print('REPRODUCED' if bad else 'not reproduced')
+        return 1 if bad else 0
     l = d.get('input')
     if not l and d.get('input_hex'):
         l = 'load ' + d['input_hex']
